@@ -1,4 +1,5 @@
 import OrsoVerif.Generated.Arrow
+import OrsoVerif.Generated.ArrowExpr
 /-!
 # C11 — Arrow interchange
 
@@ -19,6 +20,11 @@ is external and only compared.
 `FlatColumn.from_arrow`, schema.py:218-261; `PYTHON_TO_ORSO_MAP`, types.py:282-285).  Both
 tables are *not* written here: they are looked up in `Gen.Arrow.*`, regenerated from the source
 on every run.
+
+**Expressions.**  The skeleton below is hand-written; the guards, the bookkeeping and the argument
+expressions it is assembled from are *not*: `Gen.ArrowExpr.nextStopTest`, `nextBump`, `sizeTest`,
+`limitedBatch`, `toArrowLimitTest`, `toArrowHeadArg`, `decimalPrecisionArg`, `decimalScaleArg` are
+translated from the source's AST on every run (harness/extractors/c11_expr.py).
 -/
 namespace Arrow
 
@@ -62,11 +68,15 @@ structure It (α : Type) where
   maxSize : Option Nat
   batch : Nat
 
-/-- `self.rows_processed >= self.max_size` -/
+/-- The first statement of `__next__`: the *generated* stop test (`self.rows_processed >=
+self.max_size` in the source as it is now); never true against `float("inf")`. -/
 def It.full (s : It α) : Bool :=
   match s.maxSize with
   | none => false
-  | some m => decide (m ≤ s.processed)
+  | some m => decide (Gen.ArrowExpr.nextStopTest (s.processed : Int) (m : Int))
+
+/-- The *generated* update of `self.rows_processed` when a row is returned. -/
+def bump (p : Nat) : Nat := (Gen.ArrowExpr.nextBump (p : Int)).toNat
 
 /-- The `while row is None` loop of the repaired `__next__` (converters.py:52-63): take tables
 until one has a row; `none` = the tables ran out (`StopIteration`). -/
@@ -82,12 +92,12 @@ def next (s : It α) : Option α × It α :=
   if s.full then (none, s)
   else
     match s.current with
-    | r :: rest => (some r, { s with current := rest, processed := s.processed + 1 })
+    | r :: rest => (some r, { s with current := rest, processed := bump s.processed })
     | [] =>
       match fetch s.batch s.tables with
       | none => (none, { s with tables := [], current := [] })
       | some (r, rest, ts) =>
-        (some r, { s with tables := ts, current := rest, processed := s.processed + 1 })
+        (some r, { s with tables := ts, current := rest, processed := bump s.processed })
 
 /-- `__next__` of the pinned tree (before `fix: Arrow row iterator skips empty tables …`):
 a freshly fetched table without rows raises `StopIteration`. -/
@@ -95,13 +105,13 @@ def nextPinned (s : It α) : Option α × It α :=
   if s.full then (none, s)
   else
     match s.current with
-    | r :: rest => (some r, { s with current := rest, processed := s.processed + 1 })
+    | r :: rest => (some r, { s with current := rest, processed := bump s.processed })
     | [] =>
       match s.tables with
       | [] => (none, s)
       | t :: ts =>
         match processTable s.batch t with
-        | r :: rest => (some r, { s with tables := ts, current := rest, processed := s.processed + 1 })
+        | r :: rest => (some r, { s with tables := ts, current := rest, processed := bump s.processed })
         | [] => (none, { s with tables := ts, current := [] })
 
 /-- `for row in iterator` / `list(iterator)`: call `step` until it stops. -/
@@ -118,15 +128,19 @@ def It.remaining (s : It α) : List α := s.current ++ (s.tables.map (processTab
 def drain (s : It α) : List α := drainWith next (s.remaining.length + 1) s
 def drainPinned (s : It α) : List α := drainWith nextPinned (s.remaining.length + 1) s
 
-/-- converters.py:103-107: `BATCH_SIZE = 10_000; if size: BATCH_SIZE = min(size, BATCH_SIZE) else: size = inf`.
-A size of `0` is falsy in Python and therefore means "no limit". -/
-def batchOf : Option Nat → Nat
-  | some (s + 1) => min (s + 1) Gen.Arrow.batchSize
-  | _ => Gen.Arrow.batchSize
-
+/-- converters.py:103-107, `if size: … else: size = float("inf")`: the limit in force, if any.
+`size = none` is Python's `None`; the *generated* test decides for a given size (`if size:` makes
+`0` mean "no limit"). -/
 def limitOf : Option Nat → Option Nat
-  | some (s + 1) => some (s + 1)
-  | _ => none
+  | some k => if Gen.ArrowExpr.sizeTest (k : Int) then some k else none
+  | none => none
+
+/-- `BATCH_SIZE`: the *generated* expression (`min(size, BATCH_SIZE)`) in the limited branch, the
+extracted constant otherwise. -/
+def batchOf (size : Option Nat) : Nat :=
+  match limitOf size with
+  | some k => (Gen.ArrowExpr.limitedBatch (k : Int) (Gen.Arrow.batchSize : Int)).toNat
+  | none => Gen.Arrow.batchSize
 
 /-- converters.py:121-127. -/
 def init (tables : List (Table α)) (size : Option Nat) : It α :=
@@ -135,12 +149,13 @@ def init (tables : List (Table α)) (size : Option Nat) : It α :=
 /-- The rows `from_arrow(tables, size)` delivers when iterated to the end. -/
 def fromArrowRows (tables : List (Table α)) (size : Option Nat) : List α := drain (init tables size)
 
-/-- What the property demands of them. -/
+/-- What the property demands of them (written out, independent of the generated expressions):
+all rows, or the first `size` of them; `0`/`None` is "no limit". -/
 def expectedRows (tables : List (Table α)) (size : Option Nat) : List α :=
   let all := (tables.map Table.rows).flatten
-  match limitOf size with
-  | none => all
-  | some m => all.take m
+  match size with
+  | some (k + 1) => all.take (k + 1)
+  | _ => all
 
 /-! ## to_arrow -/
 
@@ -167,18 +182,23 @@ def ColTable.rows (t : ColTable α) : List (List α) := transposeN t.numRows t.c
 /-- `DataFrame.head(size)` = `slice(0, size)` (dataframe.py:143,243-251) for `size ≥ 0`. -/
 def head (size : Nat) (rows : List (List α)) : List (List α) := rows.take size
 
-/-- converters.py:75-89.  `size : Option Int` — a negative size is ignored (`size >= 0`). -/
-def toArrow (names : List String) (rows : List (List α)) (size : Option Int) : ColTable α :=
-  let rows := match size with
-    | some (.ofNat k) => head k rows
-    | _ => rows
-  if rows.length = 0 then { names := names, cols := List.replicate names.length [] }
-  else { names := names, cols := transposeN names.length rows }
+/-- converters.py:81-82: the argument `head` is called with, if it is called: the *generated*
+guard (`size is not None and size >= 0`) and argument (`size`). -/
+def limitArg : Option Int → Option Nat
+  | some k => if Gen.ArrowExpr.toArrowLimitTest k then some (Gen.ArrowExpr.toArrowHeadArg k).toNat else none
+  | none => none
 
 /-- The frame limited the way `arrow(size)` limits it. -/
-def limited (rows : List (List α)) : Option Int → List (List α)
-  | some (.ofNat k) => rows.take k
-  | _ => rows
+def limited (rows : List (List α)) (size : Option Int) : List (List α) :=
+  match limitArg size with
+  | some k => head k rows
+  | none => rows
+
+/-- converters.py:75-89. -/
+def toArrow (names : List String) (rows : List (List α)) (size : Option Int) : ColTable α :=
+  let rows := limited rows size
+  if rows.length = 0 then { names := names, cols := List.replicate names.length [] }
+  else { names := names, cols := transposeN names.length rows }
 
 /-- `DataFrame.from_arrow(df.arrow(size))`: the rows that come back. -/
 def roundtripRows (names : List String) (rows : List (List α)) (size : Option Int) : List (List α) :=
@@ -240,25 +260,17 @@ def lookup {β : Type} (k : String) : List (String × β) → Option β
   | (a, b) :: r => if a = k then some b else lookup k r
 
 open Gen.Arrow in
-/-- Python's `x or d` / `d if x is None else x` / `x` on an optional natural. -/
-def applyDefault : Defaulting → Option Nat → Option Nat
-  | .orElse d, none => some d
-  | .orElse d, some 0 => some d
-  | .orElse _, some n => some n
-  | .ifNone d, none => some d
-  | .ifNone _, some n => some n
-  | .plain, x => x
-
-open Gen.Arrow in
 /-- Evaluate one constructor call of `arrow_field`'s table for a column with the given
-precision and scale.  `pyarrow.decimal128` rejects a precision outside its range and `None`
-arguments. -/
+precision and scale.  The two arguments of `pyarrow.decimal128` are the *generated* expressions
+(`self.precision or DECIMAL_PRECISION`, `10 if self.scale is None else self.scale`);
+`pyarrow.decimal128` rejects a precision outside its range and `None` arguments. -/
 def instantiate (p s : Option Nat) : Spec → ArrowTy
   | .prim i => .prim i
-  | .decimal i dp ds =>
-    match applyDefault dp p, applyDefault ds s with
+  | .decimal i =>
+    match Gen.ArrowExpr.decimalPrecisionArg (p.map Int.ofNat), Gen.ArrowExpr.decimalScaleArg (s.map Int.ofNat) with
     | some p', some s' =>
-      if decimalMinPrecision ≤ p' ∧ p' ≤ decimalMaxPrecision then .decimal i p' s' else .invalid
+      if (decimalMinPrecision : Int) ≤ p' ∧ p' ≤ (decimalMaxPrecision : Int) ∧ 0 ≤ s' then .decimal i p'.toNat s'.toNat
+      else .invalid
     | _, _ => .invalid
   | .list i e => .list i (instantiate p s e)
   | .unknown => .invalid
